@@ -114,7 +114,7 @@ func TestC09(t *testing.T) {
 	rep.Rule("write histories (600..5000 items, >= 2 sequence wraps) mixing dialect message types, decoded and raw, with occasional refused items, over configurations " +
 		"version x system id {1,2,127,255} x component id {0,1,200,255} x key x link id, through streamwriter.Writer, frame.Writer.WriteMessage, frame.ReadWriter.WriteMessage and a Node with 1..6 custom channels " +
 		"(WriteMessageAll/To/Except + heartbeats + stream requests on the same per-link counter); every emitted frame parsed by the reference: identity, version, flags, checksum, v1 base size, " +
-		"sequence automaton (first 0, then +1 mod 256; a step of 1..1+r only across r refused writes). Initialization refusals enumerated. distinct = (configuration, api) links")
+		"sequence automaton (first 0, then +1 mod 256; a step of 1..1+r only across r refused writes). A second dialect that gives ids 0 and 66 other definitions is used side by side (stream writers and nodes, raw and decoded, either dialect first). Initialization refusals enumerated. distinct = (configuration, api) links")
 	rep.Assume("a sequence number consumed by a refused write is tolerated (the statement speaks of accepted writes); counted in seq_numbers_consumed_by_refused_writes")
 	seed := vh.Seed()
 	r := vh.Sub(seed, "c09")
@@ -388,6 +388,9 @@ func TestC09(t *testing.T) {
 		}()
 	}
 
+	// two dialects with different definitions of ids 0 and 66 side by side
+	c09twins(rep, r, genv)
+
 	// initialization refusals
 	type initCase struct {
 		name    string
@@ -433,4 +436,145 @@ func TestC09(t *testing.T) {
 	rep.Floor("originated_frames_node", 2000)
 	rep.Floor("node_heartbeats_seen", 50)
 	rep.Floor("node_stream_requests_seen", 50)
+}
+
+// ---- two dialects that give the same ids different definitions, used side by side in one process ----
+
+type MessageTwinZero struct { // id 0 like HEARTBEAT, another definition
+	Alpha uint64
+	Beta  uint16
+}
+
+func (*MessageTwinZero) GetID() uint32 { return 0 }
+
+type MessageTwinSixtySix struct { // id 66 like REQUEST_DATA_STREAM, another definition
+	Gamma [3]uint32
+	Delta int8
+}
+
+func (*MessageTwinSixtySix) GetID() uint32 { return 66 }
+
+// c09twins interleaves writers (stream writers and nodes) of the main dialect and of the twin dialect; every frame's
+// checksum must be the one of its own dialect's definition, whichever dialect used the id first.
+func c09twins(rep *vh.Report, r *vh.RNG, main *gateEnv) {
+	var twinInfos []*msgInfo
+	for _, m := range []message.Message{&MessageTwinZero{}, &MessageTwinSixtySix{}} {
+		mi := &msgInfo{Name: "twin." + reflect.TypeOf(m).Elem().Name(), Msg: m, Type: reflect.TypeOf(m).Elem()}
+		l, err := ref.LayoutOf(mi.Type)
+		if err != nil {
+			rep.HarnessError(err.Error())
+			return
+		}
+		mi.Layout = l
+		twinInfos = append(twinInfos, mi)
+	}
+	twin, err := newGateEnv(twinInfos)
+	if err != nil {
+		rep.Violation("api=streamwriter what=init:valid", "a dialect that re-defines ids 0 and 66 was refused: "+err.Error(), nil)
+		return
+	}
+	for _, mi := range twinInfos {
+		if m := main.layouts[mi.Msg.GetID()]; m == nil || m.Layout.CRCExtra == mi.Layout.CRCExtra {
+			rep.HarnessError("twin dialect: id not in the main dialect or same CRC_EXTRA")
+			return
+		}
+	}
+	envs := []*gateEnv{main, twin}
+	names := []string{"main", "twin"}
+	conf := c09conf{version: 2, sys: 11, comp: 22}
+	// stream writers: one per dialect, raw and decoded items of ids 0 and 66 in alternation; the id is used first by the
+	// main dialect for 0 and first by the twin for 66
+	type link struct {
+		rw      *recWriter
+		sw      *streamwriter.Writer
+		emitted []c09emitted
+	}
+	links := make([]*link, 2)
+	for i, env := range envs {
+		rw := &recWriter{}
+		fw := &frame.Writer{ByteWriter: rw, DialectRW: env.drw}
+		_ = fw.Initialize()
+		sw := &streamwriter.Writer{FrameWriter: fw, Version: streamwriter.V2, SystemID: conf.sys, ComponentID: conf.comp}
+		if err := sw.Initialize(); err != nil {
+			rep.HarnessError(err.Error())
+			return
+		}
+		links[i] = &link{rw: rw, sw: sw}
+	}
+	write := func(li int, id uint32, raw bool) {
+		env, l := envs[li], links[li]
+		mi := env.layouts[id]
+		val := reflect.New(mi.Type)
+		vh.FillMessage(r, mi.Layout, val, vh.ModeMixed)
+		var m message.Message = val.Interface().(message.Message)
+		if raw {
+			m = &message.MessageRaw{ID: id, Payload: mi.Layout.Encode(val, true)}
+		}
+		l.rw.reset()
+		if err := l.sw.Write(m); err != nil {
+			rep.Violation("api=streamwriter what=checksum", fmt.Sprintf("the %s dialect's writer refused a message of its own dialect (id %d) while another dialect defining that id is in use: %v", names[li], id, err), nil)
+			return
+		}
+		if len(l.rw.calls) == 1 {
+			l.emitted = append(l.emitted, c09emitted{wire: l.rw.calls[0]})
+		}
+	}
+	for round := 0; round < 40; round++ {
+		raw := round%2 == 0
+		write(0, 0, raw) // main uses id 0 first
+		write(1, 0, raw)
+		write(1, 66, raw) // twin uses id 66 first
+		write(0, 66, raw)
+		write(1, 0, !raw)
+		write(0, 66, !raw)
+	}
+	for i := range envs {
+		c09checkLink(rep, "streamwriter", conf, envs[i], links[i].emitted, -1)
+		rep.Count("twin_dialect_frames_"+names[i], len(links[i].emitted))
+	}
+	// nodes: one per dialect, alive at the same time, application messages of both ids
+	type nl struct {
+		node *gomavlib.Node
+		tr   *fake.Transport
+	}
+	var nodes []nl
+	for i, env := range envs {
+		var dmsgs []message.Message
+		for _, mi := range env.sorted() {
+			dmsgs = append(dmsgs, mi.Msg)
+		}
+		tr := fake.NewTransport("twin-" + names[i])
+		node := &gomavlib.Node{Endpoints: []gomavlib.EndpointConf{gomavlib.EndpointCustom{ReadWriteCloser: tr}}, Dialect: &dialect.Dialect{Version: 3, Messages: dmsgs},
+			OutVersion: gomavlib.V2, OutSystemID: conf.sys, OutComponentID: conf.comp, HeartbeatDisable: true}
+		if err := node.Initialize(); err != nil {
+			rep.Violation("api=node what=init:valid", "a valid configuration was refused: "+err.Error(), names[i])
+			return
+		}
+		go func() {
+			for range node.Events() {
+			}
+		}()
+		nodes = append(nodes, nl{node, tr})
+	}
+	for round := 0; round < 30; round++ {
+		for _, step := range [][2]int{{1, 0}, {0, 0}, {0, 66}, {1, 66}} { // here the twin uses id 0 first and the main dialect id 66
+			env := envs[step[0]]
+			mi := env.layouts[uint32(step[1])]
+			val := reflect.New(mi.Type)
+			vh.FillMessage(r, mi.Layout, val, vh.ModeMixed)
+			_ = nodes[step[0]].node.WriteMessageAll(val.Interface().(message.Message))
+		}
+		time.Sleep(200 * time.Microsecond)
+	}
+	for i, n := range nodes {
+		n.tr.WaitWrites(60, 500*time.Millisecond)
+		n.node.Close()
+		var emitted []c09emitted
+		for _, w := range n.tr.Writes() {
+			emitted = append(emitted, c09emitted{wire: w.Data})
+		}
+		c09checkLink(rep, "node", conf, envs[i], emitted, -1)
+		rep.Count("twin_dialect_node_frames_"+names[i], len(emitted))
+	}
+	rep.Distinct("twin-dialects")
 }
